@@ -504,7 +504,7 @@ fn universe(label: &str, ns: &[&str], classes: &[(&str, &[(&str, &str)], &[(&str
 	Universe { label: label.to_owned(), ns: ns.iter().map(|s| s.to_string()).collect(), elems }
 }
 
-const COMMENTS: &[&str] = &["x", "a b", "l1\nl2", "l1\n\nl3", "ü☃ É", "", "back\\nslash", "tail\\", "é\\ü\n😀", " x "];
+const COMMENTS: &[&str] = &["x", "a b", "l1\nl2", "l1\n\nl3", "ü☃ É", "", "back\\nslash", "tail\\", "é\\ü\n😀", " x ", "tab\there", "cr\r", "a\r\nb\0", "\\t\\r\\0 literal"];
 
 type ClassSpec<'a> = (&'a str, &'a [(&'a str, &'a str)], &'a [(&'a str, &'a str, &'a [(usize, bool)])]);
 
@@ -729,7 +729,7 @@ fn main() {
 	eprintln!("C03 phases (s): histories {:.1}, content {:.1}, comments {:.1}, bulk {:.1}, lines+cells+probes {:.1}", t_hist - t0, t_content - t_hist, t_comment - t_content, t_bulk - t_comment, t_lines - t_bulk);
 	ctx.finish(coverage, &[
 		"names containing TAB or newline are outside the Tiny v2 format and outside the alphabet",
-		"comments containing TAB or CR are outside the quantifier (probed for panics only; outcomes are recorded)",
+		"comments containing TAB, CR or NUL are in the alphabets since the writer escapes them (Tiny v2 escapes \\t \\r \\0; repaired in /repo this session)",
 		"the top-level mappings comment is never produced by the reader and is not generated",
 		"stateright's BFS visits every reachable state (its exhaustiveness is trusted)",
 		"mapmodel's reference reader is the independent reading of the format",
